@@ -548,6 +548,221 @@ def gen_queries(rng, t, n, k=0):
     return qs
 
 
+# ------------------------------------------------------------------------------------------------ directed structural mutations
+
+OFFMASK = 0x00FFFFFFFFFFFE00           # host offset bits of L1 / standard L2 entries (qcow2.txt: bits 9..55)
+M64 = (1 << 64) - 1
+
+
+def struct_bases(rng, tier="quick"):
+    """[(name, recipe)]: small images for struct_mutations whose cluster maps are written out explicitly, so that every kind of
+    L2 entry exists in every run: extended-L2 entries (fully allocated, half data / half zero, all-zero with and without host cluster,
+    partially allocated with untouched sub-clusters at both ends, bare host cluster, compressed, unallocated slots), standard entries
+    (normal, zero, zero + host, compressed, unallocated), entries on both sides of an L2-table boundary, with / without backing file,
+    internal snapshot (own and shared L2 tables), external data file. The random generator only fills in layout, names, seeds."""
+    out = []
+
+    def mk(name, clusters, tables=2, **kn):
+        cb = kn["cluster_bits"]
+        ext = kn.get("ext", False)
+        l2n = (1 << cb) // (16 if ext else 8)
+        m = dict(clusters)
+        if tables > 1:                      # the same entries around the first L2-table boundary
+            vals = list(clusters.values())
+            for d in (-2, -1, 0, 1, 3):
+                m[l2n + d] = vals[(d + 2) % len(vals)]
+        ncl = max(m) + 2
+        r = gen_recipe(rng, "quick", size=ncl * (1 << cb) - rng.choice([0, 1, 700]), depth=1, **kn)
+        r["clusters"] = {str(i): v for i, v in sorted(m.items()) if not (v[0] == "c" and r["datafile"]) and not (v[0] in ("z", "za") and r["version"] == 2)}
+        for sn in r["snaps"]:               # snapshot maps: a copy-on-write relative of the explicit map
+            kinds = sorted({v[0] for v in r["clusters"].values()})
+            sn["share"] = [tb for tb in sn["share"] if tb > 0]
+            cm = _gen_cow_map(rng, r["clusters"], ncl, kinds, 1 << cb)
+            sn["clusters"] = {k: v for k, v in cm.items() if int(k) // l2n not in sn["share"] and int(k) // l2n < sn["l1_size"]}
+        r["layout"]["jumps"] = []
+        out.append((name, r))
+    S = lambda a, z, h: ["s", a, z, h]
+    extmap = {0: S(M32, 0, 1), 1: S(0x0000FFFF, 0xFFFF0000, 1), 2: S(0, M32, 0), 3: S(0, M32, 1), 4: S(0x00FF00F0, 0, 1), 5: ["c", "pat", 7],
+              7: S(0, 0, 1), 8: S(0x80000001, 0x00000100, 1), 9: S(0, 0x0000FF00, 0), 11: S(M32, 0, 1), 12: S(M32, 0, 1), 13: ["c", "mix4", 9],
+              14: S(0xFFFF0000, 0x000000FF, 1)}
+    stdmap = {0: ["n"], 1: ["n"], 2: ["z"], 3: ["za"], 4: ["c", "pat", 3], 6: ["n"], 7: ["c", "mix4", 5], 8: ["c", "zero", 1], 9: ["za"], 10: ["n"], 11: ["z"]}
+    ecb = rng.choice([14, 14, 15, 16])
+    mk("ext", extmap, cluster_bits=ecb, ext=True, version=3, datafile=None, backing="none", nsnaps=0)
+    mk("ext-backing-snap", extmap, cluster_bits=14, ext=True, version=3, datafile=None, backing="raw", nsnaps=1)
+    mk("ext-datafile", extmap, tables=1, cluster_bits=rng.choice([14, 15]), ext=True, version=3, datafile="arb", backing="none", nsnaps=0)
+    mk("std3", stdmap, cluster_bits=rng.choice([9, 10, 12]), ext=False, version=3, datafile=None, backing="none", nsnaps=1)
+    mk("std2-backing", stdmap, cluster_bits=rng.choice([9, 11, 16]), ext=False, version=2, datafile=None, backing="raw", nsnaps=0)
+    mk("std3-datafile", stdmap, tables=1, cluster_bits=rng.choice([9, 12]), ext=False, version=3, datafile=rng.choice(["arb", "raw"]), backing="none", nsnaps=0)
+    if tier != "quick":
+        for i in range(6):
+            e = i % 2 == 0
+            mk(f"x{i}", extmap if e else stdmap, cluster_bits=rng.choice([14, 16, 17] if e else [9, 10, 13, 16]), ext=e, version=3 if e else rng.choice([2, 3]),
+               datafile=rng.choice([None, None, "arb"]), backing=rng.choice(["none", "raw", "qcow2"]), nsnaps=rng.choice([0, 1, 2]))
+    return out
+
+
+def struct_mutations(recipe, max_entries=24):
+    """Directed mutations of the table structure of the image Truth(recipe) writes: [label, [[offset in "img", bytes hex], ...],
+    [[view (0 = active, j+1 = snapshot j), guest offset, length], ...] reads that reach the mutated entry]. Nothing is random.
+      * every L1 entry of every L1 table (active + snapshots, unused slots too): 0, L2 offset := end of file / crossing the end / 2^55 /
+        all offset bits / unaligned (bit 9 flipped; reserved low bits set) / the L1 table itself / the refcount table (arbitrary bytes
+        as L2 entries) / another L2 table / the header cluster; COPIED toggled; all-ones
+      * every used L2 entry and the unused slots next to them (standard and extended): host offset := 0 keeping flags and bitmap / end of
+        file / crossing the end / 2^55 / all offset bits / unaligned / own L2 table; COPIED, ZERO, COMPRESSED toggled; whole word := 0 / 1 /
+        COPIED / COMPRESSED alone / COMPRESSED with sector count max and 0, offset 0, own, end of file - 1, max / all-ones
+      * extended: the bitmap word := 0 / all-ones / alloc all / zero all / alloc-without-zero single bits (0, 15, 31) / one alloc-and-zero
+        overlap added to the old value / overlap only / swapped halves / alternating; the same alloc patterns together with host offset := 0
+        (allocation bits on a cluster without host cluster: at the start, behind a zero run, behind an untouched run)
+      * header: l1_size, l1_table_offset, refcount table offset / clusters, nb_snapshots, snapshots_offset, size, cluster_bits,
+        backing file offset / size, version, crypt_method, incompatible feature bits (extended L2 / data file / compression toggled),
+        header_length, compression_type: edge values
+      * every snapshot table entry: l1_table_offset, l1_size, id / name / extra data sizes: edge values
+    The expectation for every one of them is only "open + reads come back, within the memory bound" (C11)."""
+    t = Truth(recipe)
+    r, cs, l2n, esz, pos = t.r, t.cs, t.l2n, t.esz, t.pos
+    img = t.files["img"]
+    fsz = -(-img.size // cs) * cs
+    dsz = -(-t.files["data"].size // cs) * cs if r["datafile"] else fsz
+    nviews = 1 + min(len(r["snaps"]), 2)
+    ss = cs // 32 if t.ext else cs
+    maps = [r] + r["snaps"]
+    out = []
+
+    def q(v):
+        return struct.pack(">Q", v & M64).hex()
+
+    def reads_for(i):
+        b = i * cs
+        rd = [[b, cs], [max(0, b - 1), 2], [b + cs - 1, 2], [max(0, b - cs), 3 * cs], [b + 16 * ss if t.ext else b + cs // 2, ss + 1], [b + cs - ss, ss]]
+        return [[v, o, n] for v in range(nviews) for o, n in rd]
+    # ---- L1 tables
+    l2offs = sorted({p for key, p in pos.items() if key[0] == "l2"})
+    for k, m in enumerate(maps):
+        base = pos[("l1", k)]
+        for tb in range(m["l1_size"]):
+            a = base + 8 * tb
+            old = struct.unpack(">Q", img.read_at(a, 8).ljust(8, b"\0"))[0]
+            oo = old & OFFMASK
+            other = next((p for p in l2offs if p != oo), 0)
+            vals = {"0": 0, "off=eof": fsz, "off=eof-512": fsz - 512, "off=2^55": 1 << 55, "off=max": OFFMASK, "unaligned": old ^ 0x200, "lowbits": old | 0x1FF,
+                    "off=l1": base, "off=rt": pos[("rt",)], "off=other-l2": other, "off=hdr+512": 512, "copied^": old ^ COPIED, "copied-only": COPIED,
+                    "ones": M64, "reserved": old | (0x7F << 56)}
+            i0 = tb * l2n
+            rd = [[v, o, n] for v in range(nviews) for o, n in ([i0 * cs, cs], [max(0, i0 * cs - 1), 2], [(i0 + l2n) * cs - cs, 2 * cs], [(i0 + 1) * cs, 3 * cs])]
+            for name, v in vals.items():
+                if v & M64 != old:
+                    out.append([f"l1[{k}.{tb}]:{'used' if oo else 'free'}:{name}", [[a, q(v)]], rd])
+    # ---- L2 tables
+    for key in sorted(k_ for k_ in pos if k_[0] == "l2"):
+        _, k, tb = key
+        base = pos[key]
+        raw = img.read_at(base, cs).ljust(cs, b"\0")
+        used = [j for j in range(l2n) if any(raw[j * esz: (j + 1) * esz])]
+        slots = sorted(set(used) | {j + 1 for j in used if j + 1 < l2n} | {0, l2n - 1})
+        if len(slots) > max_entries:
+            slots = slots[: max_entries // 2] + slots[-(max_entries // 2):]
+        shift = 70 - t.cb
+        cmask = (1 << (t.cb - 8)) - 1
+        for j in slots:
+            a = base + j * esz
+            old = struct.unpack(">Q", raw[j * esz: j * esz + 8])[0]
+            bm = struct.unpack(">Q", raw[j * esz + 8: j * esz + 16])[0] if t.ext else 0
+            comp = bool(old & COMPRESSED)
+            # kind of the entry as written: standard n / z / za, compressed c, unused slot free, extended s + h(ost cluster) a(lloc bits) z(ero bits)
+            kind = "free" if not (old or bm) else "c" if comp else "za" if old & ZERO and old & OFFMASK else "z" if old & ZERO else "n"
+            if t.ext and kind not in ("free", "c"):
+                kind = "s" + ("h" if old & (OFFMASK | COPIED) else "") + ("a" if bm & M32 else "") + ("z" if bm >> 32 else "")
+            rd = reads_for(tb * l2n + j)
+            lab = f"l2[{k}.{tb}.{j}]:{kind}:"
+            fl = old & ~OFFMASK & M64
+            coff = old & ((1 << shift) - 1)
+            w = {"off=0": fl, "off=eof": fl | dsz, "off=eof-512": fl | ((dsz - 512) & OFFMASK), "off=eof-cs": fl | ((dsz - cs) & OFFMASK), "off=2^55": fl | 1 << 55,
+                 "off=max": fl | OFFMASK, "unaligned": old ^ 0x200, "lowbits": old | 0x1FE, "off=own-l2": fl | base, "copied^": old ^ COPIED, "zero^": old ^ ZERO,
+                 "compressed^": old ^ COMPRESSED, "0": 0, "1": 1, "copied-only": COPIED, "copied+zero": COPIED | ZERO, "c-only": COMPRESSED,
+                 "c:nsec=max,off=0": COMPRESSED | cmask << shift, "c:nsec=max,off=own": COMPRESSED | cmask << shift | coff,
+                 "c:nsec=0,off=own": COMPRESSED | coff, "c:nsec=max,off=eof-1": COMPRESSED | cmask << shift | (fsz - 1), "c:nsec=0,off=eof-1": COMPRESSED | (fsz - 1),
+                 "c:nsec=0,off=eof": COMPRESSED | fsz, "c:off=max": COMPRESSED | ((1 << 62) - 1), "c:off=l2": COMPRESSED | (1 << shift) | base,
+                 "ones": M64, "reserved": old | (0x3F << 56)}
+            for name, v in w.items():
+                if v & M64 != old:
+                    out.append([lab + name, [[a, q(v)]], rd])
+            if not t.ext:
+                continue
+            al, ze = bm & M32, bm >> 32
+            lowa, lowz = al & -al, ze & -ze
+            free = ~(al | ze) & M32
+            bms = {"bm=0": 0, "bm=ones": M64, "bm=alloc-all": M32, "bm=zero-all": M32 << 32, "bm=alloc0": 1, "bm=alloc15": 1 << 15, "bm=alloc31": 1 << 31,
+                   "bm+alloc-low-free": bm | (free & -free), "bm+alloc-high-free": bm | (1 << (free.bit_length() - 1) if free else 0),
+                   "bm+overlap-on-alloc": bm | lowa << 32, "bm+overlap-on-zero": bm | lowz, "bm=overlap0": 1 | 1 << 32, "bm=overlap31": 1 << 31 | 1 << 63,
+                   "bm=swapped": ze | al << 32, "bm=alt": 0x55555555 | 0xAAAAAAAA << 32, "bm=alt-overlap": 0x55555555 | 0xDAAAAAAA << 32,
+                   "bm=zero-low,alloc-high": 0xFFFF0000 | 0x0000FFFF << 32, "bm=alloc-mid": 0x00FFFF00}
+            for name, v in bms.items():
+                if v != bm:
+                    out.append([lab + name, [[a + 8, q(v)]], rd])
+            # allocation bits on an entry without host cluster: both words at once
+            nohost = {"bm=alloc0": 1, "bm=alloc31": 1 << 31, "bm=alloc-all": M32, "bm=alloc-behind-zero": 0x00010000 | 0x0000FFFF << 32,
+                      "bm=alloc-behind-free": 0xFFFF0000, "bm=alloc-mid": 0x00FFFF00, "bm=alloc-last-behind-zero": 1 << 31 | 0x7FFFFFFF << 32,
+                      "bm=overlap0": 1 | 1 << 32, "bm=ones": M64}
+            for name, v in nohost.items():
+                for f2, fname in ((0, "off=0,flags=0"), (COPIED, "off=0,copied")):
+                    if not (old == f2 and bm == v):
+                        out.append([f"l2[{k}.{tb}.{j}]:*:{fname},{name}", [[a, q(f2)], [a + 8, q(v)]], rd])   # kind *: both words are replaced
+    # ---- header
+    u32 = lambda v: struct.pack(">I", v & 0xFFFFFFFF).hex()
+    hd = img.read_at(0, 112).ljust(112, b"\0")
+    l1n, l1o, nsn, sno, size = r["l1_size"], pos[("l1", 0)], len(r["snaps"]), pos.get(("st",), 0), t.size
+    whole = [[v, o, n] for v in range(nviews) for o, n in ([0, cs], [max(0, size - cs), 2 * cs], [l2n * cs - cs, 2 * cs])]
+    H = []
+    H += [("l1_size", 36, u32(v)) for v in sorted({0, 1, max(0, l1n - 1), l1n + 1, 1 << 16, (1 << 25) + 1, (1 << 32) - 1} - {l1n})]
+    H += [("l1_table_offset", 40, q(v)) for v in sorted({0, fsz, fsz - 8, l1o + 1, l1o + 8, l1o + 512, 1 << 55, 1 << 63, M64, pos[("rt",)], sno} - {l1o})]
+    H += [("refcount_table_offset", 48, q(v)) for v in (0, fsz, pos[("rt",)] + 1, 1 << 63, M64)]
+    H += [("refcount_table_clusters", 56, u32(v)) for v in (0, 2, (1 << 32) - 1)]
+    H += [("nb_snapshots", 60, u32(v)) for v in sorted({0, nsn + 1, 65537, (1 << 32) - 1} - {nsn})]
+    H += [("snapshots_offset", 64, q(v)) for v in sorted({0, fsz, fsz - 8, sno + 1, sno + 8, 64, l1o, 1 << 63, M64} - {sno})]
+    H += [("size", 24, q(v)) for v in sorted({0, 1, size + 1, size + cs, l2n * cs * (l1n + 1), 1 << 56, 1 << 63, M64} - {size})]
+    H += [("cluster_bits", 20, u32(v)) for v in sorted({0, 8, 9, t.cb - 1, t.cb + 1, 13, 14, 21, 22, 31, 32, 63, 64, (1 << 32) - 1} - {t.cb})]
+    H += [("backing_file_offset", 8, q(v)) for v in (0, 1, fsz, fsz - 1, 1 << 63, M64)]
+    H += [("backing_file_size", 16, u32(v)) for v in (0, 1, 1023, 1024, 1 << 31, (1 << 32) - 1)]
+    H += [("version", 4, u32(v)) for v in (0, 1, 2, 3, 4, (1 << 32) - 1) if v != r["version"]]
+    H += [("crypt_method", 32, u32(v)) for v in (1, 2, (1 << 32) - 1)]
+    if r["version"] == 3:
+        inc = struct.unpack(">Q", hd[72:80])[0]
+        H += [("incompatible_features", 72, q(v)) for v in (inc ^ 16, inc ^ 4, inc ^ 8, inc ^ 2, inc | 32, inc ^ 20, 0, M64)]
+        H += [("header_length", 100, u32(v)) for v in sorted({0, 4, 72, 100, 103, 104, 105, 112, r["hlen"] + 8, cs - 8, cs, cs + 8, 1 << 31, (1 << 32) - 1} - {r["hlen"]})]
+        H += [("refcount_order", 96, u32(v)) for v in (0, 6, 7, 64, (1 << 32) - 1)]
+        if r["hlen"] > 104:
+            H += [("compression_type", 104, "%02x" % v) for v in (1, 2, 0xFF)]
+    else:
+        H += [("v2:bytes72..", 72, q(v)) for v in (16, 4, M64)]      # a v2 header ends at 72: what follows must not matter
+    for name, off, hx in H:
+        out.append([f"hdr:{name}={hx}", [[off, hx]], whole])
+    # ---- snapshot table
+    at = pos.get(("st",), 0)
+    for j, sn in enumerate(r["snaps"]):
+        sid, name = sn["id"].encode(), sn["name"].encode()
+        ln = 40 + sn["extra"] + len(sid) + len(name)
+        so = pos[("l1", j + 1)]
+        rd = [[j + 1, o, n] for o, n in ([0, cs], [max(0, size - cs), 2 * cs], [l2n * cs - cs, 2 * cs])] if j + 1 < nviews else whole
+        S_ = [("l1_table_offset", 0, q(v)) for v in sorted({0, fsz, fsz - 8, so + 1, so + 512, l1o, at, 1 << 55, 1 << 63, M64} - {so})]
+        S_ += [("l1_size", 8, u32(v)) for v in sorted({0, 1, sn["l1_size"] + 1, max(0, sn["l1_size"] - 1), (1 << 25) + 1, (1 << 32) - 1} - {sn["l1_size"]})]
+        S_ += [("id_str_size", 12, "%04x" % v) for v in (0, 0xFFFF) if v != len(sid)]
+        S_ += [("name_size", 14, "%04x" % v) for v in (0, 0xFFFF) if v != len(name)]
+        S_ += [("extra_data_size", 36, u32(v)) for v in sorted({0, 1, 15, 17, 1024, 1 << 31, (1 << 32) - 1} - {sn["extra"]})]
+        for fname, off, hx in S_:
+            out.append([f"snap[{j}]:{fname}={hx}", [[at + off, hx]], rd])
+        at += ln + (-ln % 8)
+    return out
+
+
+def struct_pick(rng, muts):
+    """one mutation per class (table, kind of entry, mutation name) -- which entry of that kind gets it is the only thing drawn"""
+    groups = {}
+    for m in muts:
+        head, _, rest = m[0].partition(":")
+        groups.setdefault((head.split("[")[0], rest), []).append(m)
+    return [rng.choice(g) for _, g in sorted(groups.items())]
+
+
 # ------------------------------------------------------------------------------------------------ the real code
 
 def open_impl(t):
